@@ -49,6 +49,9 @@ type WOutage struct {
 	Dir    int   `json:"d"` // 0 c->s, 1 s->c, 2 both
 	FromMS int64 `json:"from"`
 	ToMS   int64 `json:"to"`
+	// the outage also wipes the client's NAT binding: what the server sends afterwards is dropped until the client has
+	// sent a datagram of its own again (a sender that waits to be woken up by its peer waits for ever)
+	NAT bool `json:"nat,omitempty"`
 }
 
 type WInject struct {
@@ -71,6 +74,7 @@ type WNet struct {
 	FaultUntilMS int64     `json:"fault_until_ms,omitempty"` // lazy faults only before this time (0 = always)
 	Explicit     bool      `json:"explicit"`
 	MTU          [2]int    `json:"mtu,omitempty"` // datagrams larger than this vanish (0 = none)
+	AltMTU       int       `json:"alt_mtu,omitempty"` // the same on the client's other paths only: from and to its second interface, and towards its address after a NAT rebinding
 	Outages      []WOutage `json:"outages,omitempty"`
 	RebindAtOrd  int       `json:"rebind_at,omitempty"` // from this client datagram on, the client's source address changes
 	Burst        int       `json:"burst,omitempty"`     // deliver up to n due events before waiting for quiescence
@@ -170,6 +174,7 @@ func (h *wHeap) Pop() any     { o := *h; n := len(o); x := o[n-1]; *h = o[:n-1];
 var (
 	wClientAddr  = &net.UDPAddr{IP: net.IPv4(10, 0, 0, 1).To4(), Port: 9001}
 	wClientAddr2 = &net.UDPAddr{IP: net.IPv4(10, 0, 0, 77).To4(), Port: 7707} // after NAT rebinding
+	wClientAddr3 = &net.UDPAddr{IP: net.IPv4(10, 0, 9, 1).To4(), Port: 9301}  // the client's second interface (client-initiated migration)
 	wServerAddr  = &net.UDPAddr{IP: net.IPv4(10, 0, 0, 2).To4(), Port: 443}
 )
 
@@ -286,7 +291,7 @@ func (w *World) SendPacket(p simnet.Packet) error {
 	ord := len(w.Log[dir])
 	now := w.NowNS()
 	from, to := p.From, p.To
-	if dir == 0 && w.Net.RebindAtOrd > 0 && ord >= w.Net.RebindAtOrd {
+	if dir == 0 && w.Net.RebindAtOrd > 0 && ord >= w.Net.RebindAtOrd && p.From.String() == wClientAddr.String() {
 		from = wClientAddr2
 		w.rebound = true
 	}
@@ -297,8 +302,8 @@ func (w *World) SendPacket(p simnet.Packet) error {
 	rec := &DgramRec{Dir: dir, Ord: ord, SentNS: now, Size: len(p.Data), Hash: KHashS(string(p.Data)), Client: caddr}
 	// (the wiretap sits on the client's side of the NAT: it knows one client under its private address)
 	tapAddr := caddr
-	if tapAddr == wClientAddr2.String() {
-		tapAddr = wClientAddr.String()
+	if tapAddr == wClientAddr2.String() || tapAddr == wClientAddr3.String() {
+		tapAddr = wClientAddr.String() // (and one client behind its two interfaces)
 	}
 	rec.Pkts = w.Tap.Datagram(dir, ord, tapAddr, p.Data)
 	w.Log[dir] = append(w.Log[dir], rec)
@@ -385,10 +390,36 @@ func (w *World) SendPacket(p simnet.Packet) error {
 		rec.Fate += "outage "
 		w.Res.Fault("outage")
 	}
+	if dir == 1 && copies > 0 {
+		for _, o := range w.Net.Outages {
+			if !o.NAT || now/1e6 < o.ToMS {
+				continue
+			}
+			reopened := false
+			for i := len(w.Log[0]) - 1; i >= 0 && !reopened; i-- {
+				if w.Log[0][i].SentNS/1e6 < o.ToMS {
+					break
+				}
+				reopened = true
+			}
+			if !reopened {
+				copies = 0
+				rec.Fate += "nat "
+				w.Res.Fault("nat-binding-lost")
+				break
+			}
+		}
+	}
 	if m := w.Net.MTU[dir]; m > 0 && len(p.Data) > m {
 		copies = 0
 		rec.Fate += "mtu "
 		w.Res.Fault("mtu-blackhole")
+	}
+	if m := w.Net.AltMTU; m > 0 && len(p.Data) > m && (caddr == wClientAddr3.String() || (dir == 1 && caddr == wClientAddr2.String())) {
+		// (a NAT rebinding is invisible to the client: only what the server sends to the new address meets the smaller MTU)
+		copies = 0
+		rec.Fate += "altmtu "
+		w.Res.Fault("alt-path-mtu-blackhole")
 	}
 	rec.Damaged = damaged
 	rec.PktState = make([]int8, len(rec.Pkts))
@@ -632,6 +663,9 @@ type wPKI struct {
 	pool *x509.CertPool
 }
 
+// wAltServerName: a second host name the server's certificate is valid for
+const wAltServerName = "second.localhost"
+
 func wGenPKI(chain int) *wPKI {
 	nb, na := time.Date(1990, 1, 1, 0, 0, 0, 0, time.UTC), time.Date(2100, 1, 1, 0, 0, 0, 0, time.UTC)
 	caKey, _ := ecdsa.GenerateKey(elliptic.P256(), rand.Reader)
@@ -659,7 +693,7 @@ func wGenPKI(chain int) *wPKI {
 		parent, parentKey = c, k
 	}
 	k, _ := ecdsa.GenerateKey(elliptic.P256(), rand.Reader)
-	lt := &x509.Certificate{SerialNumber: big.NewInt(2), Subject: pkix.Name{CommonName: "localhost"}, DNSNames: []string{"localhost"}, NotBefore: nb, NotAfter: na,
+	lt := &x509.Certificate{SerialNumber: big.NewInt(2), Subject: pkix.Name{CommonName: "localhost"}, DNSNames: []string{"localhost", wAltServerName}, NotBefore: nb, NotAfter: na,
 		KeyUsage: x509.KeyUsageDigitalSignature, ExtKeyUsage: []x509.ExtKeyUsage{x509.ExtKeyUsageServerAuth}}
 	der, err := x509.CreateCertificate(rand.Reader, lt, parent, &k.PublicKey, parentKey)
 	if err != nil {
@@ -842,10 +876,12 @@ func wBegin(cfg *WConfig) {
 		// native IPv6 addresses; the client and its rebinding address are neighbours in one /64
 		wClientAddr = &net.UDPAddr{IP: net.ParseIP("2001:db8:1:2::a"), Port: 9001}
 		wClientAddr2 = &net.UDPAddr{IP: net.ParseIP("2001:db8:1:2:7777::77"), Port: 7707}
+		wClientAddr3 = &net.UDPAddr{IP: net.ParseIP("2001:db8:9:9::a"), Port: 9301}
 		wServerAddr = &net.UDPAddr{IP: net.ParseIP("2001:db8:ffff::2"), Port: 443}
 	} else {
 		wClientAddr = &net.UDPAddr{IP: net.IPv4(10, 0, 0, 1).To4(), Port: 9001}
 		wClientAddr2 = &net.UDPAddr{IP: net.IPv4(10, 0, 0, 77).To4(), Port: 7707}
+		wClientAddr3 = &net.UDPAddr{IP: net.IPv4(10, 0, 9, 1).To4(), Port: 9301}
 		wServerAddr = &net.UDPAddr{IP: net.IPv4(10, 0, 0, 2).To4(), Port: 443}
 	}
 	// (drawn from crypto/rand, which the kernel has seeded for this run)
